@@ -513,8 +513,14 @@ class _Flattener(object):
             st2.orelse = self.block(st.orelse, stack)
             return pre + [st2]
         if isinstance(st, ast.For) and isinstance(st.iter, ast.Call) and not st.orelse and not _leaves_loop(st.body):
-            # `for x in _generator_helper(...)`: the helper's body with the loop body at every yield
-            r = self.expand(st.iter, None, stack, gen_for=(st.target, st.body))
+            # `for x in _generator_helper(...)`: the helper's body with the loop body at every yield.  `list(gen(..))` / `tuple(..)`
+            # materialise the items first; for what is done with each item (the view the rules take) the order of the two
+            # activities does not matter, so the wrapper is looked through
+            it = st.iter
+            if isinstance(it.func, ast.Name) and it.func.id in ("list", "tuple") and len(it.args) == 1 and not it.keywords \
+                    and isinstance(it.args[0], ast.Call):
+                it = it.args[0]
+            r = self.expand(it, None, stack, gen_for=(st.target, st.body))
             if r is not None:
                 return r
         if isinstance(st, (ast.For, ast.AsyncFor)):
